@@ -56,7 +56,9 @@ pub unsafe extern "C" fn mmap(addr: *mut libc::c_void, len: usize, prot: i32, fl
 #[no_mangle]
 pub unsafe extern "C" fn munmap(addr: *mut libc::c_void, len: usize) -> i32 {
     let r = raw_munmap(addr, len);
-    if RECORD.load(SeqCst) { push(Ev { kind: b'U', a: addr as u64, b: len as u64, ret: r as i64, n: 0, content: [0; 32], tid: tid() }); }
+    // the library unmaps trampolines (a few bytes long); the C runtime's own munmaps of thread stacks,
+    // arenas and file mappings (page multiples, never returned by a recorded mmap) are not its doing
+    if RECORD.load(SeqCst) && (len < 4096 || ours(addr as u64)) { push(Ev { kind: b'U', a: addr as u64, b: len as u64, ret: r as i64, n: 0, content: [0; 32], tid: tid() }); }
     r
 }
 #[no_mangle]
@@ -84,6 +86,11 @@ pub unsafe extern "C" fn __clear_cache(start: *mut u8, end: *mut u8) {
     }
 }
 
+fn ours(a: u64) -> bool {
+    let n = len();
+    for i in 0..n { let e = get(i); if e.kind == b'M' && e.ret >= 0 && e.ret as u64 == a { return true; } }
+    false
+}
 pub fn hex(b: &[u8]) -> String { b.iter().map(|x| format!("{x:02x}")).collect() }
 /// events [from, to) in the wire format of the model driver
 pub fn dump(from: usize, to: usize) -> String {
